@@ -46,6 +46,16 @@ J('A.strncat_s.arena', ['C01', 'C02', 'C03', 'C04', 'C05', 'C06', 'C08'], 'A', '
   enforce='_strncat_s_chk', functions=['_strncat_s_chk', 'handle_error'], sliced=True, fallback=('B.strncat_s.L0', 'B.slack.strncat_s'),
   timeout=1200, mem_gb=6,
   note='layout A: one arena, disjoint extents, both pointer orders; object sizes unknown; arbitrary dest contents; 1 <= slen <= RSIZE_MAX_STR; exact concatenation result (C06) only at index 0')
+J('A.strcpy_s.overlap', ['C07', 'C01', 'C02', 'C03', 'C04', 'C05'], 'A', 'contracts/str/strcpy_s.overlap.spec.c',
+  sources=['src/str/strcpy_s.c'], overlays={'src/str/strcpy_s.c': 'contracts/str/strcpy_s.overlap.loops'},
+  enforce='_strcpy_s_chk', functions=['_strcpy_s_chk', 'handle_error'], sliced=True, fallback='B.strcpy_s.L0',
+  timeout=1200, mem_gb=6, tiers=('dev',),
+  note='layout A with INTERSECTING declared extents (src != dest), both pointer orders; destbos unknown; sizes symbolic up to RSIZE_MAX_STR')
+J('A.strncpy_s.overlap', ['C07', 'C01', 'C02', 'C03', 'C04', 'C05'], 'A', 'contracts/str/strncpy_s.overlap.spec.c',
+  sources=['src/str/strncpy_s.c'], overlays={'src/str/strncpy_s.c': 'contracts/str/strncpy_s.overlap.loops'},
+  enforce='_strncpy_s_chk', functions=['_strncpy_s_chk', 'handle_error'], sliced=True, fallback='B.strncpy_s.L0',
+  timeout=1200, mem_gb=6, tiers=('dev',),
+  note='layout A with INTERSECTING declared extents (src != dest), both pointer orders; sizes unknown to the library; dmax, slen symbolic up to RSIZE_MAX_STR')
 J('A.strnlen_s', ['C02', 'C10', 'C05', 'C01'], 'A', 'contracts/str/strnlen_s.spec.c',
   sources=['src/str/strnlen_s.c'], overlays={'src/str/strnlen_s.c': 'contracts/str/strnlen_s.loops'},
   enforce='_strnlen_s_chk', functions=['_strnlen_s_chk'], sliced=False, timeout=600, fallback='B.q.strnlen_s',
